@@ -418,18 +418,28 @@ func (server *Server) handleMessage(conn *Conn, msg *proto.Message) (resMsg *Mes
 
 // responseMessage returns the response message to the request connection.
 func (server *Server) responseMessage(conn io.Writer, msg *Message) error {
-	var bytes []byte
-	var err error
-	if msg != nil {
-		bytes, err = msg.RESPBytes()
-	} else {
-		bytes, err = NewErrorMessage(ErrSystem).RESPBytes()
-	}
+	bytes, err := responseBytes(msg)
 	if err != nil {
 		return err
 	}
 	_, err = conn.Write(bytes)
 	return err
+}
+
+// responseBytes serializes the response message. A missing message, or one that cannot be
+// serialized (such as an array holding a nil element), is answered with the system error
+// so that the request still gets exactly one reply.
+func responseBytes(msg *Message) (bytes []byte, err error) {
+	defer func() {
+		if r := recover(); r != nil {
+			log.Errorf("%s/%s panic: %v", PackageName, Version, r)
+			bytes, err = NewErrorMessage(ErrSystem).RESPBytes()
+		}
+	}()
+	if msg == nil {
+		return NewErrorMessage(ErrSystem).RESPBytes()
+	}
+	return msg.RESPBytes()
 }
 
 // handleMessage handles a client message.
